@@ -290,6 +290,30 @@ def check(run: Run) -> None:
             run.violate("J1", f"{AN}:circulation_along_curve:{ncomp}", mod, mod.tree,
                         f"circulation_along_curve does not integrate A . dr/dt over (t, a, b) for a {ncomp}-component curve "
                         f"({'raises ' + res.exc if isinstance(res, Raised) else [repr(normalize(i)) for i, _ in R.integrals]}, limits {[l for _, l in R.integrals]})")
+    # ---- J1 in curvilinear systems: the line element is (h1 dq1, h2 dq2, h3 dq3), not the derivative of the coordinate triple
+    for kind, coords in SYSTEMS.items():
+        if kind == "CARTESIAN":
+            continue
+        cs = Sys("cs" + kind, kind)
+        R = fresh()
+        r = [fun(f"r{i}", ("t", )) for i in range(3)]
+        res = run_fn(R, "circulation_along_curve", Field(cs, A), r, [t, a, b])
+        run.ob("J1", f"{kind.lower()}-field")
+        ok = isinstance(res, Raised)
+        if not ok and len(R.integrals) == 1:
+            integrand, limits = R.integrals[0]
+            hs, _ = H[kind]
+            At = Field(cs, A).at(r)
+            want = num(0)
+            for i in range(3):
+                want = op("add", want, op("mul", op("mul", substitute(hs[i], {nm: r[k] for k, nm in enumerate(coords)}), At[i]), op("diff", r[i], t)))
+            ok = same_terms(integrand, want) and limits == [(t, a, b)]
+        if not ok:
+            run.violate("J1", f"{AN}:circulation_along_curve:{kind}", mod, mod.tree,
+                        f"circulation_along_curve accepts a {kind.lower()} field and integrates "
+                        f"{[repr(i)[:120] for i, _ in R.integrals]}, which is not F . (h1 dq1, h2 dq2, h3 dq3): the derivative of the coordinate triple is the tangent "
+                        f"vector in Cartesian coordinates only (rigid rotation F_theta = r along the circle [2, t, 0] gives 0 instead of 8*pi); refuse such fields, as every "
+                        f"sibling function does, or use the line element of the system")
     # ---- J2
     R = fresh()
     rs = [fun(f"r{i}", ("u", "v")) for i in range(3)]
